@@ -258,7 +258,11 @@ PFuse ==
 ConjInner(I) == [I EXCEPT !.legs = [l \in 1..Len(I.legs) |-> [I.legs[l] EXCEPT !.qconj = -I.legs[l].qconj]]]
 
 \* conj / outer_conj are offered for a seeded 1/PostRate sample of the pipes
-PostOK == phase = "pipe" /\ nops < MaxPost /\ Keep(H2(hacc, SumAll(pipe.map) % HP), PostRate)
+\* hash of the current pipe (legs chosen, direction, block structure, index map) for the seeded samples below
+PipeHash == LET m == pipe.map
+            IN H2(H2(H2(H2(hacc, pipe.out.qconj + 3), Len(pipe.out.sizes)), IF pipe.out.sorted THEN 1 ELSE 0),
+                  SumAll([i \in 1..Len(m) |-> (i * m[i]) % HP]) % HP)
+PostOK == phase = "pipe" /\ nops < MaxPost /\ Keep(PipeHash, PostRate)
 
 PConj == /\ PostOK /\ nops' = nops + 1
          /\ pipe' = PipeConj(pipe)
@@ -285,7 +289,7 @@ PCopy == /\ PostOK /\ nops' = nops + 1
 \* The LegCharge methods LegPipe does not implement for pipes convert to a plain LegCharge first:
 \* to_LegCharge() is the outgoing leg without the splitting information; sort / bunch / project return what
 \* LegCharge.sort / bunch / project return for that leg.  The pipe itself is not changed.  Terminal.
-ConvOK == phase = "pipe" /\ Keep(H2(hacc, (SumAll(pipe.map) + 13 * nops + 5) % HP), ConvRate)
+ConvOK == phase = "pipe" /\ Keep(H2(PipeHash, 13 * nops + 5), ConvRate)
 PLogL == /\ hist' = Append(hist, [l |-> last', a |-> After(leg'), inq |-> <<>>])
          /\ obs' = LegObs(mods, leg')
          /\ UNCHANGED full
@@ -314,7 +318,7 @@ PProjectLeg == Conv(\E mask \in PipeMasks(IndLen(pipe.out)) :
 \* the current pipe becomes the first (front = FALSE) or the last (front = TRUE) incoming leg of a further pipe
 PNest == /\ phase = "pipe" /\ inner = NoInner /\ MaxNest > 0 /\ prof.n >= 2
          /\ Len(pipe.map) <= NestMax
-         /\ Keep(H2(hacc, (SumAll(pipe.map) + 7 * nops + 3) % HP), NestRate)
+         /\ Keep(H2(PipeHash, 7 * nops + 3), NestRate)
          /\ prof' = Prof(NestN, prof.mods, 2, {1, 2}, [k \in 1..NestN |-> NestLegRate])   \* bound of the further legs
          /\ \E fr \in BOOLEAN :
               /\ front' = fr
